@@ -202,8 +202,9 @@ fn main() {
     let mut o = Out { n: 0 };
     let il = i64_lattice();
     let ul = u64_lattice();
-    let zbs: Vec<ZatBalance> = il.iter().filter_map(|x| ZatBalance::from_i64(*x).ok()).collect();
-    let zts: Vec<Zatoshis> = ul.iter().filter_map(|x| Zatoshis::from_u64(*x).ok()).collect();
+    // constructors may themselves be broken: never let a panic in them kill the harness
+    let zbs: Vec<ZatBalance> = il.iter().filter_map(|x| catch(|| ZatBalance::from_i64(*x).ok()).flatten()).collect();
+    let zts: Vec<Zatoshis> = ul.iter().filter_map(|x| catch(|| Zatoshis::from_u64(*x).ok()).flatten()).collect();
 
     // --- exhaustive over the boundary lattice --------------------------------------------
     for x in &il { ctor_cases(&mut o, *x); }
@@ -250,12 +251,33 @@ fn main() {
         sum_cases(&mut o, &[*x, *y, *w], &ts);
     } } }
     sum_cases(&mut o, &[], &[]);
+    // long sums of one repeated value: the exact total passes 2^63 / 2^64 only after thousands of
+    // terms (2^64 / MAX_MONEY ~ 8784.1), far beyond pairwise boundary tests
+    for (v, ns) in [(MAX_MONEY, vec![1u64, 2, 4391, 4392, 4393, 8783, 8784, 8785, 8786, 17570]),
+                    (MAX_MONEY / 2 + 1, vec![2, 3, 8785, 17568, 17569, 17570]),
+                    (1u64 << 44, vec![119, 120, 524288, 1048576, 1048577]), (0, vec![20000]), (1, vec![20000])] {
+        for n in ns {
+            if let Some(Ok(t)) = catch(|| Zatoshis::from_u64(v)) {
+                let ts: Vec<Zatoshis> = vec![t; n as usize];
+                o.c(format!("ZatSumRep {} {} {}", zu(v as u128), vcommon::n(n as u128), ores_zt(catch(|| ts.iter().copied().sum::<Option<Zatoshis>>()))));
+                o.c(format!("ZatSumRep {} {} {}", zu(v as u128), vcommon::n(n as u128), ores_zt(catch(|| ts.iter().sum::<Option<Zatoshis>>()))));
+            }
+            for sign in [1i64, -1] {
+                if let Some(Ok(b)) = catch(|| ZatBalance::from_i64(sign * (v as i64))) {
+                    let bs: Vec<ZatBalance> = vec![b; n as usize];
+                    o.c(format!("ZbSumRep {} {} {}", z(zb(b)), vcommon::n(n as u128), ores_zb(catch(|| bs.iter().copied().sum::<Option<ZatBalance>>()))));
+                    o.c(format!("ZbSumRep {} {} {}", z(zb(b)), vcommon::n(n as u128), ores_zb(catch(|| ZatBalance::sum(bs.iter().copied())))));
+                }
+            }
+        }
+    }
     let lattice_cases = o.n;
 
     // --- random ------------------------------------------------------------------------------
     let budget = a.budget(6_000, 120_000);
     let mut k = 0;
     while k < budget {
+      let _ = catch(std::panic::AssertUnwindSafe(|| {
         let x = rand_i64(&mut r);
         let u = rand_u64(&mut r);
         ctor_cases(&mut o, x);
@@ -281,6 +303,7 @@ fn main() {
         let mut rb = r.bytes(rl);
         if rl >= 8 && r.bool() { rb[..8].copy_from_slice(&r.below(MAX_MONEY + 2).to_le_bytes()); }
         read_case(&mut o, &rb);
+      }));
         k += 70;
     }
     stat(format!("{{\"lattice_cases\": {}, \"random_cases\": {}, \"i64_lattice\": {}, \"u64_lattice\": {}, \"exhaustive_lattice\": true}}",
